@@ -22,6 +22,7 @@
                        target has executed exactly `P`: NOTHING IS EVER REPEATED.
 -/
 import GunYu.Props.C02TwoRuns
+import GunYu.Props.C09
 
 namespace GunYu.Props.C02
 open GunYu GunYu.Sender GunYu.Target
@@ -145,6 +146,18 @@ theorem crash_cut_resumed (pc : PCfg) (sc : SCfg) (raws : List Raw) (start0 : In
       obtain ⟨r, hr, hxr⟩ := itemCmdsO_own pc _ B x hx
       have := hBgt r hr; omega)
   exact ⟨hAB, hnfA, hbyp, hso, hsplit'.1, ⟨_, hsplit'.2⟩⟩
+
+theorem parserItems_ge (pc : PCfg) (start : Int) (raws : List Raw)
+    (hraw : (raws.map (·.off)).Pairwise (· < ·)) (hlo : ∀ r ∈ raws, start < r.off) :
+    ∀ i ∈ parserItems pc start raws, start ≤ i.offset := by
+  intro i hi
+  unfold parserItems at hi
+  rcases List.mem_append.mp hi with h | h
+  · split at h
+    · simp only [List.mem_singleton] at h; subst h; simp [selectItem]
+    · cases h
+  · have := itemsMono_ge (parseAll_itemsMono pc raws { lastSent := start } .no rfl hraw hlo) i h
+    simpa using this
 
 /-- no position is stored (hashes may exist: the run-id fields are written first) -/
 def NoOffsets (cps : List (Int × CpRec)) : Prop := ∀ d, (getCp cps d).offset = none
@@ -357,6 +370,33 @@ theorem startsAt_congr {cps cps' : List (Int × CpRec)} {s o d : Int}
   · exact Or.inl ⟨fun x => by rw [h x]; exact hn x, ho, hd⟩
   · exact Or.inr ⟨by rw [h d]; exact hu.1, fun d' hd' o' ho' => hu.2 d' hd' o' (by rw [← h d']; exact ho')⟩
 
+
+/-! ### What a life of `Lives` stands for
+
+A life of `Lives` has a schedule without `done` that contains ALL remaining items.
+A real life receives some prefix of the stream, may end its loop by `done`, and
+dies after `k` requests. The two lemmas below say that nothing is lost by the
+restriction: the first `k` requests of a schedule do not depend on what follows
+it (so the remaining items can be appended), and a `done` does to the loop what a
+checkpoint tick does and ends it (so it can be replaced by one, dropping what
+follows). -/
+
+theorem life_received_prefix_wlog (c : SCfg) (evs1 more : List Ev) (k : Nat) (hnd : C01.NoDone evs1)
+    (hk : k ≤ (run c initS evs1).2.flatten.length) :
+    (run c initS (evs1 ++ more)).2.flatten.take k = (run c initS evs1).2.flatten.take k := by
+  rw [C09.run_append c initS evs1 more hnd]
+  simp only [List.flatten_append]
+  exact List.take_append_of_le_length hk
+
+theorem done_is_cpTick (c : SCfg) (s : SState) : step c s .done = step c s .cpTick := rfl
+
+theorem run_done_as_cpTick (c : SCfg) (pre post : List Ev) (hnd : C01.NoDone pre) :
+    run c initS (pre ++ Ev.done :: post) = run c initS (pre ++ [Ev.cpTick]) := by
+  rw [C09.run_append c initS pre _ hnd, C09.run_append c initS pre _ hnd]
+  have h1 : run c (run c initS pre).1 (Ev.done :: post) = step c (run c initS pre).1 .done := by
+    simp [run]
+  rw [h1, C09.run_single, done_is_cpTick]
+
 /-- **The states reachable by any number of lives.** `Lives pc raws start t0 txn T o d`:
     starting from the target `t0` (no position stored), after some number of lives
     the target is `T` and the next `StartPoint` reads position `o` in database `d`.
@@ -372,9 +412,8 @@ inductive Lives (pc : PCfg) (raws : List Raw) (start : Int) (t0 : TState) (txn :
       (hitems : itemsOf evs =
         parserItems { pc with startDbId := d } o (raws.filter (fun r => decide (o < r.off))))
       (hnd : C01.NoDone evs)
-      (htx : txn = true → sc.txnMode = true ∧ sc.resume = true ∧ NonNeg evs)
-      (hpos : StartsAt (applyLog (crash T) ((run sc initS evs).2.flatten.take k)).cps start o' d')
-      (hd' : 0 ≤ d') :
+      (htx : txn = true → sc.txnMode = true ∧ sc.resume = true)
+      (hpos : StartsAt (applyLog (crash T) ((run sc initS evs).2.flatten.take k)).cps start o' d') :
       Lives pc raws start t0 txn (applyLog (crash T) ((run sc initS evs).2.flatten.take k)) o' d'
 
 /-- `Replayed S P Q`: the history `Q` of a target is the part `P` of the specification
@@ -426,13 +465,14 @@ theorem lives_lose_nothing (pc : PCfg) (raws : List Raw) (start : Int) (t0 : TSt
       pc.filterCmd r.cmd = false ∧ (pc.filterCmdKey r.cmd r.args).isSome)
     (hnf : parseFails pc { lastSent := start } raws = false)
     (hsel : ∀ x ∈ raws, x.cmd = bSelect → ∀ a n, x.args = [a] → atoi? a = some n → 0 ≤ n)
-    (hmap : ∀ n : Int, 0 ≤ n → mapDb pc n ≠ -1)
+    (hmapnn : ∀ n : Int, 0 ≤ n → 0 ≤ mapDb pc n)
     (hno : NoOffsets t0.cps)
     (T : TState) (o d : Int) (h : Lives pc raws start t0 txn T o d) :
     StartsAt T.cps start o d ∧ start ≤ o ∧ 0 ≤ d ∧
     ∃ P Q, T.applied = t0.applied ++ Q ∧ List.Sublist P Q ∧
       specStream pc false 0 raws = P ++ specStream pc false d (raws.filter (fun r => decide (o < r.off))) ∧
       (txn = true → Q = P) ∧ Replayed (specStream pc false 0 raws) P Q := by
+  have hmap := mapDb_ne_of_nonneg pc hmapnn
   induction h with
   | init =>
     refine ⟨Or.inl ⟨hno, rfl, rfl⟩, Int.le_refl _, Int.le_refl _, [], [], by simp, List.Sublist.refl _, ?_,
@@ -441,7 +481,7 @@ theorem lives_lose_nothing (pc : PCfg) (raws : List Raw) (start : Int) (t0 : TSt
       apply List.filter_eq_self.mpr
       intro x hx; simpa using hlo x hx
     rw [this]; rfl
-  | @life T o d hL sc evs k o' d' hitems hnd htx hpos hd' ih =>
+  | @life T o d hL sc evs k o' d' hitems hnd htx hpos ih =>
     obtain ⟨hsa, hso, hd0, P, Q, happ, hsub, hspec, hexact, hrep⟩ := ih
     -- the stream this life reads
     generalize hB : raws.filter (fun r => decide (o < r.off)) = B at hitems hspec
@@ -477,7 +517,11 @@ theorem lives_lose_nothing (pc : PCfg) (raws : List Raw) (start : Int) (t0 : TSt
           (crash T) hq k
         exact ⟨E, hE, hs, fun h => by cases h⟩
       | true =>
-        obtain ⟨h1, h2, h3⟩ := htx htxn
+        obtain ⟨h1, h2⟩ := htx htxn
+        have h3 : NonNeg evs := nonNeg_of_items evs (fun i hi => by
+          rw [hitems] at hi
+          have := parserItems_ge _ o B hrawB hloB i hi
+          omega)
         obtain ⟨E, hE, hs, hc⟩ := txn_crash_repeats_nothing_prefix sc h1 h2 evs hm h3 (crash T) hq k
         exact ⟨E, hE, hs, fun _ => hc⟩
     obtain ⟨E, hE, hsame, hcov⟩ := hEx
@@ -491,7 +535,7 @@ theorem lives_lose_nothing (pc : PCfg) (raws : List Raw) (start : Int) (t0 : TSt
         intro x; rw [hsame.2, hoff x]; rfl
       obtain ⟨ho', hdd'⟩ := startsAt_unique hpos hsa1
       subst ho'; subst hdd'
-      refine ⟨hpos, hso, hd', P, Q ++ (seqApplied 0 (dataB E)).2, ?_, ?_, ?_, ?_, ?_⟩
+      refine ⟨hpos, hso, hd0, P, Q ++ (seqApplied 0 (dataB E)).2, ?_, ?_, ?_, ?_, ?_⟩
       · rw [hsame.1, happE, happc, happ, List.append_assoc]
       · exact hsub.trans (List.sublist_append_left _ _)
       · rw [hB]; exact hspec
@@ -528,6 +572,23 @@ theorem lives_lose_nothing (pc : PCfg) (raws : List Raw) (start : Int) (t0 : TSt
       have hsa1 : StartsAt T1.cps start oE (E1.foldl execReq (crash T)).cur := by
         right; rw [hsame.2]; exact hum
       obtain ⟨ho', hdd'⟩ := startsAt_unique hpos hsa1
+      -- the database of the new position is a real one
+      have hd' : 0 ≤ d' := by
+        have hnn0 : ItemsNoNested false (parseAll { pc with startDbId := d } { lastSent := o } B) := by
+          rw [parseAll_setDb]; exact hnnB
+        have hnf0 : parseFails { pc with startDbId := d } { lastSent := o } B = false := by
+          rw [parseFails_setDb]; exact hnfB
+        obtain ⟨_, _, _, _, hd1, _⟩ := crash_cut_resumed { pc with startDbId := d } sc B o evs
+          hitems hrawB hloB ho0 hnd hnn0 hnf0 E E1 E2 oE hE hsplit
+        have hwf := run_wf sc initS evs
+        have hplain1 : ∀ r ∈ E1, Plain r = true := fun r hr =>
+          bodies_plain _ hwf r (hE.subset (by rw [hsplit]; exact List.mem_append_left _ hr))
+        rw [hdd', (foldl_execReq_seq E1 hplain1 (crash T)).1, hcur, ← dataBO_proj, hd1, itemCmdsO_proj,
+          seq_parserItems pc d o hd0]
+        apply seqApplied_db_nonneg _ _ hd0
+        apply parseAll_select_db_nonneg pc _ _ _ hmapnn
+        intro x hx
+        exact hselB x (List.mem_filter.mp hx).1
       obtain ⟨_, hoE, hspecB, happE, hX⟩ := life_step pc d sc B o evs hitems hrawB hloB ho0 hnd hnnB hnfB
         hselB hmap (crash T) hcur hd0 ht E E1 E2 oE hE hsplit hlast d' hdd' hd'
       rw [← ho'] at hoE hspecB happE hX
@@ -613,7 +674,7 @@ theorem lives_then_complete (pc : PCfg) (raws : List Raw) (start : Int) (t0 : TS
       pc.filterCmd r.cmd = false ∧ (pc.filterCmdKey r.cmd r.args).isSome)
     (hnf : parseFails pc { lastSent := start } raws = false)
     (hsel : ∀ x ∈ raws, x.cmd = bSelect → ∀ a n, x.args = [a] → atoi? a = some n → 0 ≤ n)
-    (hmap : ∀ n : Int, 0 ≤ n → mapDb pc n ≠ -1)
+    (hmapnn : ∀ n : Int, 0 ≤ n → 0 ≤ mapDb pc n)
     (hno : NoOffsets t0.cps)
     (T : TState) (o d : Int) (h : Lives pc raws start t0 txn T o d)
     (sc : SCfg) (hsc : sc.txnMode = false) (evs : List Ev)
@@ -624,7 +685,8 @@ theorem lives_then_complete (pc : PCfg) (raws : List Raw) (start : Int) (t0 : TS
       List.Sublist (specStream pc false 0 raws) Q' ∧
       (txn = true → Q' = specStream pc false 0 raws) := by
   obtain ⟨_, _, hd0, P, Q, happ, hsub, hspec, hexact, _⟩ := lives_lose_nothing pc raws start t0 txn hraw hlo
-    hstart hnest hpass hnf hsel hmap hno T o d h
+    hstart hnest hpass hnf hsel hmapnn hno T o d h
+  have hmap := mapDb_ne_of_nonneg pc hmapnn
   have hBsub : List.Sublist (raws.filter (fun r => decide (o < r.off))) raws := List.filter_sublist
   have hnnB := run2_items_noNested_src pc raws o hraw hnest hpass
   have hnnB' : ItemsNoNested false (parseAll { pc with startDbId := d } { lastSent := o }
@@ -693,10 +755,10 @@ theorem lvLives : Lives trPc trRaws 0 trT false lvT2 160 7 := by
   have h1 : Lives trPc trRaws 0 trT false lvT1 50 5 :=
     Lives.life Lives.init trCfg trEvs1 5 50 5 (by decide +kernel)
       (by unfold GunYu.Props.C01.NoDone; decide +kernel) (fun h => by cases h)
-      (Or.inr (uniqueMaxB_spec _ _ _ (by decide +kernel))) (by omega)
+      (Or.inr (uniqueMaxB_spec _ _ _ (by decide +kernel)))
   exact Lives.life h1 trCfg lvEvs2 6 160 7 (by decide +kernel)
     (by unfold GunYu.Props.C01.NoDone; decide +kernel) (fun h => by cases h)
-    (Or.inr (uniqueMaxB_spec _ _ _ (by decide +kernel))) (by omega)
+    (Or.inr (uniqueMaxB_spec _ _ _ (by decide +kernel)))
 
 example : lvT2.cps = [(7, { offset := some 160, hasRunId := true }), (5, { offset := some 50, hasRunId := true })] := by
   decide +kernel
@@ -715,7 +777,7 @@ example : ∀ r ∈ trRaws, (r.cmd = bMulti ∨ r.cmd = bExec) →
 example : True := by
   have := lives_lose_nothing trPc trRaws 0 trT false (by decide +kernel) (by decide +kernel) (by omega)
     (by simp [RawNoNested, trRaws, bSelect, bMulti, bExec]) (fun r _ _ => ⟨rfl, rfl⟩) (by decide +kernel)
-    (selOK_spec trRaws (by decide +kernel)) (mapDb_ok trPc rfl (by decide +kernel))
+    (selOK_spec trRaws (by decide +kernel)) (mapDb_nonneg trPc rfl (by decide +kernel))
     (fun d => rfl) lvT2 160 7 lvLives
   trivial
 
@@ -729,12 +791,12 @@ def lvT1tx : TState := applyLog (crash trT) ((run trCfgTx initS trEvs1).2.flatte
 theorem lvLivesTx : Lives trPc trRaws 0 trT true lvT1tx 77 5 :=
   Lives.life Lives.init trCfgTx trEvs1 10 77 5 (by decide +kernel)
     (by unfold GunYu.Props.C01.NoDone; decide +kernel)
-    (fun _ => ⟨rfl, rfl, nonNegB_spec trEvs1 (by decide +kernel)⟩)
-    (Or.inr (uniqueMaxB_spec _ _ _ (by decide +kernel))) (by omega)
+    (fun _ => ⟨rfl, rfl⟩)
+    (Or.inr (uniqueMaxB_spec _ _ _ (by decide +kernel)))
 example : True := by
   have := lives_lose_nothing trPc trRaws 0 trT true (by decide +kernel) (by decide +kernel) (by omega)
     (by simp [RawNoNested, trRaws, bSelect, bMulti, bExec]) (fun r _ _ => ⟨rfl, rfl⟩) (by decide +kernel)
-    (selOK_spec trRaws (by decide +kernel)) (mapDb_ok trPc rfl (by decide +kernel))
+    (selOK_spec trRaws (by decide +kernel)) (mapDb_nonneg trPc rfl (by decide +kernel))
     (fun d => rfl) lvT1tx 77 5 lvLivesTx
   trivial
 /-- exactly the specification up to 77, nothing twice -/
@@ -750,17 +812,17 @@ theorem lvLivesNone : Lives trPc trRaws 0 trT false lvT0 0 0 :=
     (by unfold GunYu.Props.C01.NoDone; decide +kernel) (fun h => by cases h)
     (Or.inl ⟨by
       have hc : (applyLog (crash trT) ((run trCfg initS trEvs1).2.flatten.take 1)).cps = [] := by decide +kernel
-      intro d; rw [hc]; rfl, rfl, rfl⟩) (by omega)
+      intro d; rw [hc]; rfl, rfl, rfl⟩)
 
 /-- `lives_then_complete` after life 1: the run resumed at (5, 50) finishes -/
 example : True := by
   have h1 : Lives trPc trRaws 0 trT false lvT1 50 5 :=
     Lives.life Lives.init trCfg trEvs1 5 50 5 (by decide +kernel)
       (by unfold GunYu.Props.C01.NoDone; decide +kernel) (fun h => by cases h)
-      (Or.inr (uniqueMaxB_spec _ _ _ (by decide +kernel))) (by omega)
+      (Or.inr (uniqueMaxB_spec _ _ _ (by decide +kernel)))
   have := lives_then_complete trPc trRaws 0 trT false (by decide +kernel) (by decide +kernel) (by omega)
     (by simp [RawNoNested, trRaws, bSelect, bMulti, bExec]) (fun r _ _ => ⟨rfl, rfl⟩) (by decide +kernel)
-    (selOK_spec trRaws (by decide +kernel)) (mapDb_ok trPc rfl (by decide +kernel))
+    (selOK_spec trRaws (by decide +kernel)) (mapDb_nonneg trPc rfl (by decide +kernel))
     (fun d => rfl) lvT1 50 5 h1 trCfg rfl lvEvs2 (by decide +kernel)
     (by unfold GunYu.Props.C01.NoDone; decide +kernel)
   trivial
